@@ -371,9 +371,15 @@ class G:
         if op == 'map_async':
             p = self.pick(anyp)
             t = self.types[p]
-            self.add({'op': 'map_async', 'up': [p], 'fn': ['tag', r.randrange(1, 9)],
+            if self.chance(0.2):
+                # jobs whose result is sometimes falsy (0 / ()): "nothing to wait for" must not be read off the value
+                m = self.pick([2, 2, 3])
+                fn, rt = ['falsy', m, r.randrange(m), self.pick([0, 1])], ('any', hashable(t))
+            else:
+                fn, rt = ['tag', r.randrange(1, 9)], ('fix', (INT, t))
+            self.add({'op': 'map_async', 'up': [p], 'fn': fn,
                       'parallelism': self.pick([1, 1, 2, 3, 4]), 'kind': self.pick(['native', 'tornado']),
-                      'lat': self.lat_list()}, ('fix', (INT, t)))
+                      'lat': self.lat_list()}, rt)
             return True
         if op == 'timed_window':
             p = self.pick(anyp)
@@ -602,6 +608,9 @@ class G:
             sc['feedback'] = feedback
         elif self.chance(0.2):
             sc['start_leaves'] = True
+        if mode == 'threaded' and self.chance(0.25):
+            # every caller thread has run (and seen fail) an asynchronous pipeline of its own before
+            sc['prelude_failed_emit'] = True
         return sc
 
 
